@@ -3,6 +3,7 @@ From Coq Require Import List NArith ZArith.
 Import ListNotations.
 Require Import ITree.Model.Common ITree.Model.RBTree ITree.Model.MapModel.
 Require Import ITree.Spec.Spec ITree.Spec.MapSpec ITree.Proofs.TreeLookup ITree.Proofs.MapProofs ITree.Proofs.MapTheorems.
+Require ITree.Model.ArenaModel ITree.Model.ArenaQuery ITree.Proofs.ArenaProofs ITree.Proofs.ArenaKeyProofs ITree.Proofs.ArenaQueryProofs.
 
 (* In every reachable state, for every stored handle x: if the in-order sequence of (slot, entry)
    pairs is A ++ (x, e) :: B then the successor step returns the first slot of B (the empty sentinel
@@ -31,3 +32,22 @@ Example C09_example :
   valid_history [] h /\ snd (a_run [] h) =
     [UNone; UNone; UNone; UEnt None; UEnt None; UEnt (Some (10, 1)%Z); UEnt (Some (10, 1)%Z); UEnt (Some (15, 3)%Z)].
 Proof. vm_compute. repeat split. Qed.
+
+(* the neighbour steps as the code performs them, on the parent-pointer arena (Model/ArenaQuery.v:
+   index_after / index_before descend to the leftmost / rightmost node of a subtree or CLIMB the parent
+   links while the node is a right / left child): for every stored slot they return the handle of the
+   tree-level [after_in] / [before_in] (the in-order successor / predecessor, EMPTY_REF at the ends),
+   within height-many iterations *)
+Theorem C09_arena_index_after : forall (a: ArenaModel.astate ment) (t: tree ment) (x: N) (fuel: nat),
+  ArenaProofs.Rep a ArenaModel.EMPTY (ArenaModel.aroot a) t -> NoDup (slots ment t) -> In x (slots ment t) ->
+  (height ment t <= fuel)%nat ->
+  exists y, after_in ment t x None = Some y /\
+            ArenaQuery.arena_index_after fuel a x = Ret (ArenaKeyProofs.olink y).
+Proof. exact ArenaQueryProofs.arena_index_after_refines. Qed.
+
+Theorem C09_arena_index_before : forall (a: ArenaModel.astate ment) (t: tree ment) (x: N) (fuel: nat),
+  ArenaProofs.Rep a ArenaModel.EMPTY (ArenaModel.aroot a) t -> NoDup (slots ment t) -> In x (slots ment t) ->
+  (height ment t <= fuel)%nat ->
+  exists y, before_in ment t x None = Some y /\
+            ArenaQuery.arena_index_before fuel a x = Ret (ArenaKeyProofs.olink y).
+Proof. exact ArenaQueryProofs.arena_index_before_refines. Qed.
